@@ -133,6 +133,9 @@ class Runner:
             fn = fns[c['f'] - 1]
             job = dict(c.get('job') or {})
             job.setdefault('expr', self.expr(fn, c['vals'], pool))
+            # standard output is a (virtual) terminal unless the call says otherwise: a binary result is then shown as a
+            # truncated hex dump, as in interactive use, instead of being copied raw (2 GiB for `"a" | tobytes(2147483648)`)
+            job.setdefault('tty', True)
             todo.append((key, c))
             jobs.append(job)
         if not jobs:
@@ -255,6 +258,7 @@ def run(ctx):
     for i, f in enumerate(fns):
         f['i'] = i + 1
         f['exit'] = f['fn'] in EXIT_BY_DESIGN
+        f['internal'] = f['fn'].startswith('_')
     counts = collections.Counter(f['cls'] for f in fns)
     ctx.cov['inventory'] = dict(counts, modules=len(inv['modules']), overrides_of_standard_names=sorted('%s/%d' % (f['fn'], f['arity']) for f in fns if f['std'] and f['cls'] != 'cli'))
 
@@ -393,6 +397,9 @@ def run(ctx):
             for vals in product([x['id'] for x in inputs[:5]], ar + 1):
                 calls.append(dict(f=f['i'], pos=-1, vals=vals, variant='tty1', arm='terminal',
                                   job=dict(expr=R.expr(f, vals, pool), tty=True, stdin='[1,2]\n"x"\n', lines=['.', '.a'])))
+    # calls with huge values first: that is where a stall can come from, and its solitary re-runs then overlap the rest
+    heavy = {p['id'] for p in pool if p['name'] in ('str_64k', 'opt_huge', 'opt_depth_huge', 'p31', 'p63', 'p64', 'f1e308', 'dv_struct')}
+    calls.sort(key=lambda c: 0 if heavy & set(c['vals']) else 1)
     evB = R.run(calls, pool, fns, 'sweep')
 
     events = R.events
@@ -414,7 +421,7 @@ def run(ctx):
     # ---- 7. TLC: every event against the call protocol, coverage obligation as postcondition
     fnp = os.path.join(ctx.build, 'c13_fns.ndjson')
     plp = os.path.join(ctx.build, 'c13_pool.ndjson')
-    vlib.write_ndjson(fnp, [dict(fn=f['fn'], arity=f['arity'], cls=f['cls'], req=f['req'], exit=f['exit'], pairs=f.get('pairs', False)) for f in fns])
+    vlib.write_ndjson(fnp, [dict(fn=f['fn'], arity=f['arity'], cls=f['cls'], internal=f['internal'], req=f['req'], exit=f['exit'], pairs=f.get('pairs', False)) for f in fns])
     vlib.write_ndjson(plp, [dict(id=p['id'], name=p['name'], inp=p['inp'], benign=p['benign'], pair=p['pair'], base=p['base']) for p in pool])
     trp = os.path.join(ctx.build, 'c13_trace.ndjson')
     vlib.write_ndjson(trp, [tla_event(e) for e in events])
@@ -467,7 +474,7 @@ def binding_demo(ctx, events, fns, pool, cfg, cfgt, extra, rejected_lines):
     demo_inv, remap = [], {}
     for k, f in enumerate((fns[fa - 1], fns[eb[0]['f'] - 1])):
         evs = ea if k == 0 else eb
-        demo_inv.append(dict(fn=f['fn'], arity=f['arity'], cls='demo', req=sorted({e['vals'][0] for e in evs}), exit=False, pairs=False))
+        demo_inv.append(dict(fn=f['fn'], arity=f['arity'], cls='demo', internal=False, req=sorted({e['vals'][0] for e in evs}), exit=False, pairs=False))
         remap[f['i']] = k + 1
     demo = []
     for e in (ea[0], eb[0], ea[1], eb[1]):
@@ -499,7 +506,7 @@ def binding_demo(ctx, events, fns, pool, cfg, cfgt, extra, rejected_lines):
     dp = os.path.join(ctx.build, 'c13_dropped.ndjson')
     vlib.write_ndjson(dp, kept)
     gp = os.path.join(ctx.build, 'c13_go_fns.ndjson')
-    vlib.write_ndjson(gp, [dict(fn=f['fn'], arity=f['arity'], cls=f['cls'], req=f['req'], exit=f['exit'], pairs=False) for f in gof])
+    vlib.write_ndjson(gp, [dict(fn=f['fn'], arity=f['arity'], cls=f['cls'], internal=f['internal'], req=f['req'], exit=f['exit'], pairs=False) for f in gof])
     files = {'trace.ndjson': dp, 'c13_fns.ndjson': gp, 'c13_pool.ndjson': extra['c13_pool.ndjson']}
     gcfg = ('SPECIFICATION TSpec\nCONSTANTS FullClasses = {"go"}\n WantPairs = FALSE\n MinGo = 40\n MinPublic = 0\n MinInternal = 0\n MinGenerated = 0\n'
             'POSTCONDITION CoveredDemo\nCHECK_DEADLOCK FALSE\n')
